@@ -24,4 +24,5 @@ for mid in sorted(res, key=lambda s: (s[:3], int(s[4:]))):
     meta["detected_by"] = ", ".join(hit) if hit else "NOT DETECTED"
     json.dump(meta, open(mp, "w"), indent=1)
     note = f" (machinery exit on {','.join(bad)})" if bad else ""
-    print(f"| {mid} | {meta['change']} | {meta['needs_to_manifest']} | {meta['detected_by']}{note} |")
+    esc = lambda t: t.replace("|", "\\|")
+    print(f"| {mid} | {esc(meta['change'])} | {esc(meta['needs_to_manifest'])} | {meta['detected_by']}{note} |")
